@@ -18,7 +18,8 @@ from . import wire
 LEVEL_TEXT = ('Static analysis (structured trace of merlin boundary calls over MIR with crate-local callees and closures spliced in). Decides that '
               'every public parameter, statement datum and prover message is absorbed into the caller\'s transcript, whole and in order, on every '
               'accepted path before each challenge that follows it in the protocol, in prover and verifier alike. Assumes merlin frames labels and '
-              'lengths (distinct (label, data) sequences give distinct states); does not decide hash collision resistance.')
+              'lengths (distinct (label, data) sequences give distinct states); does not decide hash collision resistance. What is absorbed must be the '
+              'datum itself: an in-place change (zeroize, fill, copy_from_slice, store) between the datum and the absorption is reported.')
 ASSUMPTIONS = ['merlin::Transcript::append_message / append_u64 / challenge_bytes bind label and length (STROBE framing)',
                'reverse post-order of must-executed blocks respects execution order (MIR from structured source is reducible)']
 RULE_TEXT = ('one obligation per datum class and role (present, whole, from the right source, on every path), one per challenge (absorbed-before), one per '
